@@ -64,7 +64,7 @@ struct Model {
 impl Model {
     fn fits(&self, n: usize) -> bool {
         match self.cap {
-            Some(c) => self.log.len() + n <= c,
+            Some(c) => self.log.len().checked_add(n).is_some_and(|end| end <= c),
             None => true,
         }
     }
@@ -335,8 +335,16 @@ fn run_input(history: &[In], len: usize) -> Result<(), Fail> {
             In::Read(k) | In::ReadInto(k) | In::ReadExact(k) => (*k, true),
             In::Peek(k) | In::PeekExact(k) => (*k, false),
         };
-        let fits = pos + k <= len;
+        let fits = pos.checked_add(k).is_some_and(|end| end <= len);
         let got: Result<Vec<u8>, String> = match op {
+            // counts far beyond any buffer (up to usize::MAX): the result is never copied, a success is the violation itself
+            In::Read(k) | In::Peek(k) if *k > (1 << 24) => {
+                let r = if matches!(op, In::Read(_)) { src.read_byte_slice_exact(*k).map(|s| s.len()) } else { src.peek_byte_slice_exact(*k).map(|s| s.len()) };
+                match r {
+                    Ok(n) => return Err(Fail { sig: "read-past-end-succeeded".into(), what: format!("{ctx}: returned a slice of {n} bytes") }),
+                    Err(e) => Err(format!("{e:?}")),
+                }
+            }
             In::ReadByte => src.read_byte().map(|b| vec![b]).map_err(|e| format!("{e:?}")),
             In::PeekByte => src.peek_byte().map(|b| vec![b]).map_err(|e| format!("{e:?}")),
             In::Read(k) => src.read_byte_slice_exact(*k).map(|s| s.to_vec()).map_err(|e| format!("{e:?}")),
@@ -458,6 +466,46 @@ fn input_alphabet() -> Vec<In> {
     v
 }
 
+/// Counts at the far end of usize: `pos + count` overflows unless the bound is computed as `remaining < count`.
+const HUGE: [usize; 7] = [usize::MAX, usize::MAX - 1, usize::MAX - 2, usize::MAX - 3, usize::MAX - 4, (isize::MAX as usize) + 1, isize::MAX as usize];
+
+fn huge_input_family(out: &mut Outcome) {
+    let mut alphabet = vec![In::ReadByte, In::Read(1), In::Read(2), In::Read(3), In::Peek(1)];
+    // the interpreter costs ~0.1 s per history: it gets two of the counts and two buffer lengths
+    let huge: &[usize] = if cfg!(miri) { &HUGE[..2] } else { &HUGE[..] };
+    for h in huge {
+        alphabet.push(In::Read(*h));
+        alphabet.push(In::Peek(*h));
+    }
+    if cfg!(miri) {
+        alphabet.retain(|op| !matches!(op, In::Read(2) | In::Read(3) | In::Peek(1)));
+    }
+    for len in (if cfg!(miri) { vec![0usize, 3] } else { (0..=5usize).collect::<Vec<_>>() }) {
+        for a in &alphabet {
+            for b in &alphabet {
+                for c in &alphabet {
+                    let h = vec![a.clone(), b.clone(), c.clone()];
+                    if !h.iter().any(|op| matches!(op, In::Read(k) | In::Peek(k) if *k > 8)) {
+                        continue;
+                    }
+                    guarded(out, || format!("c12 input {len} {h:?}"), || run_input(&h, len));
+                    out.count("huge_count_input_histories", 1);
+                }
+            }
+        }
+    }
+    // the fixed-slice target: a reservation of a huge size never fits, wherever the cursor stands
+    for cap in (if cfg!(miri) { vec![0usize, 3] } else { (0..=4usize).collect::<Vec<_>>() }) {
+        for pre in 0..=cap {
+            for h in huge.iter().copied() {
+                let hist = vec![Op::WriteBytes(vec![0x11; pre]), Op::Reserve(h), Op::WriteByte(0x22)];
+                guarded(out, || format!("c12 slice {cap} {}", show_history(&hist)), || run_slice(&hist, cap, false));
+                out.count("huge_reservation_histories", 1);
+            }
+        }
+    }
+}
+
 fn guarded(out: &mut Outcome, replay: impl FnOnce() -> String, f: impl FnOnce() -> Result<(), Fail>) {
     out.evaluations += 1;
     match catch_unwind(AssertUnwindSafe(f)) {
@@ -565,6 +613,9 @@ pub fn run(p: &Params) -> Outcome {
         });
         out.nontrivial += n_in;
         out.count("exhaustive_input_histories", n_in);
+        if shard == 0 {
+            huge_input_family(&mut out);
+        }
 
         // 3. random long histories
         let mut rng = Rng::new(p.seed.wrapping_mul(31337).wrapping_add(shard as u64));
